@@ -1576,8 +1576,9 @@ fn check_c15(tier: &str) -> i32 {
             audit_idx.len(),
             failing.len()
         );
-        let _ = report.finish();
-        return 2;
+        // a confirmed new violation is the verdict even if the machinery also has a complaint
+        let rc = report.finish();
+        return if rc == 1 { 1 } else { 2 };
     }
     if not_judged > 0 {
         report.info.push(format!("{not_judged} rounds were not optimal / needed more compute and were not judged"));
